@@ -1383,7 +1383,7 @@ def key_table_obligations(side: dict) -> dict[str, str]:
     defs = side.get('obligation_defs', {})
     for t in side.get('tables', {}):
         nm = _re.sub(r'[^A-Za-z0-9]+', '_', t.split('.', 1)[1]).strip('_')
-        obs[f'{kt_prefix(t)}table_{nm}_keeps_apart_whatever_the_reader_keeps_apart'] = defs[f'table:{t}']
+        obs[f'{kt_prefix(t)}table_{nm}_keeps_apart_whatever_the_reader_keeps_apart_and_is_looked_up_as_it_is_filled'] = defs[f'table:{t}']
     for c in side.get('classes', {}):
         nm = _re.sub(r'[^A-Za-z0-9]+', '_', c.split('.', 1)[1]).strip('_')
         obs[f'{kt_prefix(c)}class_{nm}_eq_ne_hash_agree_with_each_other'] = defs[f'class:{c}']
@@ -1391,7 +1391,7 @@ def key_table_obligations(side: dict) -> dict[str, str]:
     obs['smd_bones_compared_by_exactly_the_name_so_copies_of_a_bone_are_that_bone'] = 'kt_ok_bone_eq_is_name'
     obs['smd_reader_keys_bones_by_the_exact_name'] = 'kt_ok_smd_reader_key'
     obs['cmdseq_reader_keys_sequences_by_the_exact_name'] = 'kt_ok_cmdseq_reader_key'
-    obs['image_string_pool_table_present_and_lookups_normalise_like_stores'] = 'kt_ok_pool_table_present'
+    obs['image_string_pool_table_present_in_the_census'] = 'kt_ok_pool_table_present'
     return obs
 
 
